@@ -10,6 +10,9 @@ import UVerif.Model.PositConv
 import UVerif.Spec.Ieee
 import UVerifProofs.Lemmas.Pow2
 import UVerifProofs.Lemmas.Ieee
+import UVerifProofs.Lemmas.PositArith
+import UVerifProofs.Lemmas.PositDecode
+import UVerifProofs.Lemmas.PositCanon
 
 open UVerif UVerif.Posit
 
@@ -122,3 +125,59 @@ theorem C04_toIeee_special (n es eb mb : Nat) (hn : 0 < n) (hmb : 0 < mb) :
   rw [e1, e2, Nat.mod_eq_of_lt (by omega)]
   have : 2 ^ (mb - 1) ≠ 0 := by positivity
   simp [this]
+
+/-! ### the full read-back statement (uses C01 `decode_value`, `convert_correct` and uniqueness of the rounding) -/
+
+section
+open UVerif.Posit
+
+/-- **to_double()/to_float() is exact and round-trips.** For every posit configuration and every real-valued non-zero
+    encoding whose fraction fits the native mantissa (`fbitsOf n es ≤ mb`) and whose scale is a normal native exponent,
+    the native pattern denotes exactly the posit's value, and converting it back yields the original encoding. -/
+theorem C04_posit_native_roundtrip (n es eb mb a : Nat) (hn : 2 ≤ n) (ha : a < 2 ^ n) (h0 : a ≠ 0)
+    (hnar : a ≠ 2 ^ (n - 1)) (hfb : fbitsOf n es ≤ mb)
+    (hlo : 1 ≤ (decode n es a).scale + ((2 : Int) ^ (eb - 1) - 1))
+    (hhi : (decode n es a).scale + ((2 : Int) ^ (eb - 1) - 1) ≤ (2 : Int) ^ eb - 2) :
+    ieeeVal eb mb (toIeee n es eb mb a) = positVal n es a ∧
+    fromSrc n es mb (classifyIeee eb mb (toIeee n es eb mb a)) = a := by
+  obtain ⟨hv, hz, hi, hf, hfbeq, ht⟩ := decode_value n es a hn ha h0 hnar
+  have hmod : a % 2 ^ n = a := Nat.mod_eq_of_lt ha
+  have hpk := C04_toIeee_eq_pack n es eb mb a (by rw [hmod]; exact h0) (by rw [hmod]; exact hnar)
+  rw [hmod] at hpk
+  set v := decode n es a with hvdef
+  have hfb' : v.fb ≤ mb := by rw [hfbeq]; exact hfb
+  have hval := C04_pack_value eb mb v.sign v.scale v.fb v.frac hfb' hf hlo hhi
+  have hcls := C04_pack_classify eb mb v.sign v.scale v.fb v.frac hfb' hf hlo hhi
+  rw [hpk]
+  constructor
+  · rw [hval, hv]
+    congr 1
+    unfold Val.toRat
+    simp only [hz, Bool.false_eq_true, if_false]
+  · rw [hcls]
+    unfold fromSrc
+    -- the re-extracted triple has the same value; convert_ of it is the unique correct rounding of that value, and so is `a`
+    have hF : v.frac * 2 ^ (mb - v.fb) < 2 ^ mb := by
+      have : 2 ^ mb = 2 ^ v.fb * 2 ^ (mb - v.fb) := by rw [← Nat.pow_add]; congr 1; omega
+      rw [this]; exact Nat.mul_lt_mul_of_pos_right hf (Nat.two_pow_pos _)
+    have hr := convert_correct n es hn v.sign v.scale mb (v.frac * 2 ^ (mb - v.fb)) hF
+    have hsame : tripleVal v.sign v.scale mb (v.frac * 2 ^ (mb - v.fb)) = tripleVal v.sign v.scale v.fb v.frac := by
+      unfold tripleVal
+      congr 2
+      have : (2 : ℚ) ^ mb = 2 ^ v.fb * 2 ^ (mb - v.fb) := by rw [← pow_add]; congr 1; omega
+      rw [this]; push_cast
+      have p1 : (0 : ℚ) < 2 ^ (mb - v.fb) := by positivity
+      have p2 : (0 : ℚ) < 2 ^ v.fb := by positivity
+      field_simp
+    have hs := nearestB_self n es a hn ha _ hv
+    rw [ht] at hs
+    unfold tripleVal at hr hs hsame
+    rw [hsame] at hr
+    have hfr : (0 : ℚ) ≤ (v.frac : ℚ) / 2 ^ v.fb := by positivity
+    have hfr1 : (v.frac : ℚ) / 2 ^ v.fb < 1 := by rw [div_lt_one (by positivity)]; exact_mod_cast hf
+    exact nearestB_unique n es hn _ _ _ hfr hfr1 _ _ (convert_raw_lt n es (by omega) _ _ _ _) ha hr hs
+
+/-- non-vacuity: posit<32,2> 0x4d3c0001 through binary64 (27 fraction bits ≤ 52, scale 1) -/
+example : fbitsOf 32 2 ≤ 52 ∧ (decode 32 2 0x4d3c0001).scale = 1 := by decide
+
+end
